@@ -95,6 +95,45 @@ def keyArrives (u : Uni) (k k' : Key) : Prop := matchSpec u k' k.keycode (xtermM
 
 instance (u : Uni) (k k' : Key) : Decidable (keyArrives u k k') := by unfold keyArrives; exact inferInstance
 
+/-! ### Shifted-code chords
+
+Shift (optionally with Alt, never Ctrl) on an ASCII character key whose event *reports the character
+Shift produces* (`ShiftedCode > 0`: kitty "alternate keys", or Vaxis's own decoding of an upper-case
+byte).  The xterm legacy encoding expresses such a chord by the produced character — `:` for
+Shift+`;`, `@` for Shift+`2`, `ESC :` with Alt — and nothing in the report says which key produced
+it, so the chord's identity on the wire is *(produced character, modifiers without Shift)*.  That is
+also how the original event is bound (`Key.Matches` rule 3: `ShiftedCode == key` with Shift removed).
+So the clause for these chords is: the widget writes exactly that report, and Vaxis's own pipeline
+reads it back as an event that matches the binding (produced character, modifiers without Shift) —
+the binding the original event matches.  (For a letter whose shifted code is its upper case this
+coincides with the `XtermDomain` clause, which additionally demands a match on (key, Shift).)
+Not expressible (`none`): Ctrl held; no shifted code reported; a produced character outside printable
+ASCII; with Alt, a produced character that starts an escape sequence for a VT parser (0x20–0x2F,
+`O P [ \ ] X ^ _`). -/
+
+/-- The xterm legacy report of a shifted-code chord. -/
+def shiftedLegacy (k : Key) : Option Seq :=
+  let xm := xtermMods k
+  let sh := k.shifted
+  if xm &&& shiftBit = 0 ∨ xm &&& ctrlBit ≠ 0 then none
+  else if ¬(32 ≤ k.keycode ∧ k.keycode < 127) then none
+  else if ¬(32 < sh ∧ sh < 127) then none
+  else if xm &&& altBit ≠ 0 then
+    (if sh < 48 ∨ sh = 79 ∨ sh = 80 ∨ sh = 91 ∨ sh = 93 ∨ sh = 88 ∨ sh = 94 ∨ sh = 95 ∨ sh = 92 then none else some (.esc sh))
+  else some (.print [sh])
+
+/-- The event is a shifted-code chord (not a text production: without Alt its text, if any, is the
+    produced character). -/
+def ShiftedDomain (k : Key) : Bool :=
+  (shiftedLegacy k).isSome &&
+  (decide (k.text = []) || decide (k.text = [k.shifted]) || decide (xtermMods k &&& altBit ≠ 0))
+
+/-- A shifted-code chord arrives intact: the decoded event matches the binding
+    (produced character, modifiers without Shift). -/
+def shiftedArrives (u : Uni) (k k' : Key) : Prop := matchSpec u k' k.shifted (unshift (xtermMods k))
+
+instance (u : Uni) (k k' : Key) : Decidable (shiftedArrives u k k') := by unfold shiftedArrives; exact inferInstance
+
 /-- Cursor keys (and Home/End): the child's DECCKM selects SS3 (application) or CSI (normal). -/
 def cursorKeys : List (Int × Int) := [(KeyUp, 65), (KeyDown, 66), (KeyRight, 67), (KeyLeft, 68), (KeyEnd, 70), (KeyHome, 72)]
 
